@@ -341,7 +341,7 @@ func checkC06(r *fw.Run) {
 		return
 	}
 	rng := r.Rng("progs")
-	n := r.Pick(700, 30000)
+	n := r.Pick(700, 6000)
 	feat := map[string]int{}
 	var progs []*Prog
 	for i := 0; i < n; i++ {
